@@ -81,5 +81,10 @@ def run(ctx):
     rule_Q5(ctx)
     ctx.floor('L5', 8, 'view obligations')
     ctx.floor('Q5', 2, 'multiplicity obligations')
+    have = {o.construct for o in ctx.obligations if o.rule == 'Q5'}
+    need = ['Sampler.posterior:multiplicity(points)', 'Sampler.posterior:multiplicity(log_l)']
+    if [c for c in need if c not in have]:
+        ctx.floor_failures.append('rule Q5 could not decide %s' % [c for c in need
+                                                                   if c not in have])
     ctx.not_decided += ['that NumPy floor / comparison / repeat compute what their names say; '
                         'equal normalised weights of the output (arithmetic)']
